@@ -1295,3 +1295,31 @@ Lemma ex_regions :
   map (fun c => region ex_es (fun _ => false) (c_geom c)) ex_cells = [true; false; true; false] /\
   map (fun c => region ex_es (fun _ => false) (c_geom c)) ex_after_cells = [true; false; true; false].
 Proof. split; vm_compute; reflexivity. Qed.
+
+(* ========================================================================= a second call *)
+(* `1 px 0` / `2 px 5e-5` / `3 so 5`: a first call with tolerance 1e-9 merges nothing but empties every
+   cell.surfaces (Cell.update_pointers); the second call with 1e-4 removes surface 2 and re-points no cell *)
+Definition tol9 : Q := 1 # 1000000000.
+Definition w_twice : problem :=
+  mkProb [w_px 1 0 false 0 0 0 None; w_px 2 (5 # 100000) false 0 0 0 None; w_so 3] w_cells [].
+
+Theorem second_call_refuted : exists P P1 P2 c' n,
+  wf P /\ links P /\ Forall class_ok (p_surfs P) /\ planes_old_nonperiodic (p_surfs P) /\ tr_uniform (p_surfs P) /\
+  (forall s, In s (p_surfs P) -> in_sync (p_surfs P) (p_trs P) s) /\
+  dedup tol9 P = Ok P1 /\ p_surfs P1 = p_surfs P /\ ~ links P1 /\
+  dedup tol4 P1 = Ok P2 /\
+  In c' (p_cells P2) /\ In n (leaf_surfs (c_geom c')) /\ ~ In n (map s_num (p_surfs P2)).
+Proof.
+  exists w_twice. eexists. eexists. eexists. exists 2.
+  split. { unfold wf; simpl; repeat constructor; simpl; intuition discriminate. }
+  split. { intros c Hc. in_cases Hc; simpl; apply incl_refl. }
+  split; [repeat constructor|].
+  split. { intros s Hs _. in_cases Hs; reflexivity. }
+  split; [tr_uniform_tac|].
+  split. { intros s Hs. in_cases Hs; split; simpl; auto. }
+  split; [vm_compute; reflexivity|]. split; [reflexivity|].
+  split. { intro H. specialize (H _ (or_introl eq_refl) 1). simpl in H. apply H. left. reflexivity. }
+  split; [vm_compute; reflexivity|].
+  split; [left; reflexivity|]. split; [simpl; auto|].
+  simpl. intros [H|[H|[]]]; discriminate.
+Qed.
